@@ -149,8 +149,8 @@ func valueFromBuf(r *bufio.Reader) (value, error) {
 		p, _ := r.Peek(9)
 		k, i := uvarintFromBytes(p)
 		r.Discard(i)
-		p, _ = r.Peek(int(k))
-		_, err = r.Discard(len(p))
+		p = make([]byte, k)
+		_, err = io.ReadFull(r, p)
 		return string(p), err
 
 	case typeBOOL:
